@@ -8,6 +8,20 @@ COMMON = ["the harness module replaces github.com/openconfig/gnmi with /repo's w
           "rapid v1.3.0 generators; every random choice is a function of VERIF_SEED"]
 
 CHECKS = {
+    "C01": dict(
+        engine="e2e",
+        technique="end-to-end property testing (rapid) over real processes: reference interpretation of generated target streams vs the client cache and vs gnmi_cli output; metamorphic agreement of three CLI invocation styles",
+        level_text=("Each case generates a collector configuration (1-3 targets, shared or distinct requests and addresses) and per-target scripted streams (every scalar TypedValue arm, keyed paths, origins, "
+                    "deprecated element encoding, overwrites, exact/subtree/glob deletes before and after sync), starts the gnmi_collector binary built from /repo against in-harness TLS gNMI servers, and observes through "
+                    "(a) client.CacheClient STREAM subscriptions per target and for '*' and (b) the gnmi_cli binary, ONCE, display group and single, invoked with query flags, inline -proto and -proto_file, for the whole target and a subtree. "
+                    "A per-target sentinel update sent last makes quiescence observable (the pipeline is FIFO per target). The observers' view minus the collector's own meta subtree must equal the reference exactly; "
+                    "the three CLI invocations must print the same and equal the reference; each target must have received its configured request customised with its name. Dozens to hundreds of cases: bounded exploration."),
+        level_note=("real processes and sockets: the only wall-clock judgement is the hang rule (sentinel not seen 20 s after the scripted stream was sent completely, twice in a row from scratch => violation; once => inconclusive case skipped); "
+                    "the leaf set of each target is prefix-free by construction; binaries are built with the default go toolchain and -tags verif"),
+        rule=("cases are (configuration, per-target stream); non-trivial = the streams carry >=2 value kinds, >=1 keyed or origin-bearing path and >=1 delete after the sync that removes a leaf; distinct = distinct hash of the scenario"),
+        assumptions=COMMON + ["loopback networking is available in the sandbox", "collector and CLI binaries are rebuilt from /repo's working tree by the engine (go build -mod=readonly)"],
+        parts=[dict(name="random", run="TestC01Random", checks=dict(quick=36, thorough=150), shards=dict(quick=1, thorough=8), timeout=dict(quick=600, thorough=1800))],
+    ),
     "C12": dict(
         engine="ingestfuzz",
         technique="structured property-based fuzzing (rapid, hostile-shape generators) + native coverage-guided fuzzing of the wire bytes; oracle = no panic, rejected message leaves stored data intact",
